@@ -204,6 +204,10 @@ struct Plan {
     prefer_dc: usize,
     /// Whether the policy may use nodes of the other datacenter at all.
     dc_failover: bool,
+    /// A node (never the contact point, never the spare) that the session's host filter
+    /// rejects: the client knows it (tablets naming it are stored with its Node object)
+    /// but opens no pool to it and sends it nothing.
+    filtered_out: Option<usize>,
 }
 
 /// Whether the spare node (index plan.nodes) is a ring member by now.
@@ -264,12 +268,16 @@ pub fn run(req: &RunRequest) -> Value {
             dcs: 1,
             prefer_dc: 0,
             dc_failover: true,
+            filtered_out: None,
         };
         let mut plan = plan;
         if plan.nodes >= 2 && tape::chance("c15:two_dcs", 1, 3) {
             plan.dcs = 2;
             plan.prefer_dc = tape::choose("c15:prefer_dc", 2) as usize;
             plan.dc_failover = tape::chance("c15:dc_failover", 1, 2);
+        }
+        if plan.nodes >= 3 && tape::chance("c15:host_filter", 1, 5) {
+            plan.filtered_out = Some(1 + tape::choose("c15:filtered_node", plan.nodes as u64 - 1) as usize);
         }
         if tape::chance("c15:spare", 1, 3) {
             plan.spare_join_at = Some(tape::choose("c15:spare_at", plan.requests as u64) as usize);
@@ -362,8 +370,10 @@ async fn main(plan: Plan) -> Outcome {
         profile: Some(profile),
         fetch_schema: true,
         refresh_interval: Duration::from_secs(5),
+        filtered_out: plan.filtered_out.into_iter().collect(),
         ..SessionCfg::default()
     };
+    out.count("runs_with_host_filter", plan.filtered_out.is_some() as u64);
     let session = match client::build_session(&cfg).await {
         Ok(s) => Arc::new(s),
         Err(e) => {
@@ -540,6 +550,15 @@ async fn main(plan: Plan) -> Outcome {
         }
         if let (true, Some((node, shard, token, Some(known)))) = (in_sync, first) {
             routed_checked += 1;
+            if plan.filtered_out == Some(node) {
+                out.violation(&oid("request_to_filtered_node"), format!("request {m} (token {token}) went to node {node}, which the host filter rejects"));
+            }
+            // Replicas the host filter rejects are not targets: the tablet is judged by the others.
+            let mut known = known;
+            known.replicas.retain(|(n, _)| plan.filtered_out != Some(*n));
+            if known.replicas.is_empty() {
+                continue;
+            }
             let hit = known.replicas.iter().find(|(n, _)| *n == node);
             // Without datacenter failover the policy permits the preferred datacenter's
             // nodes only: a tablet without a replica there says nothing about the target.
